@@ -19,6 +19,8 @@ def gen_case(g, cid):
     pc = PCase()
     pc.cid = cid
     pc.kind = "struct" if cid % 4 != 3 else "enum"
+    if cid % 8 == 5:
+        return gen_hinted(g, pc)
     # one trait instruction per chosen name; each with its own params
     names = []
     todo = set(KINDS if pc.kind == "struct" else KINDS[:4])
@@ -268,8 +270,107 @@ def render_enum(pc, g, fallible):
     return "\n".join(L + D) + "\n", derive_src
 
 
+# ---------------------------------------------------------------------------------------------------------------
+# hinted sub-family: params on trait instructions whose counterpart has the other form
+#   A: struct with named fields, tuple counterpart (`TA as ()` or a nameless tuple type): From with vars + `..update` supplying a bare #[ghost] field
+#   B: tuple struct, named counterpart (`TB as {}`): every instruction has `return`, so no member instruction names a counterpart field
+
+def gen_hinted(g, pc):
+    r = g.r
+    pc.kind = "hinted"
+    pc.a_ty = r.choice(["TA as ()", "(i32, i32)"])
+    pc.a_from = r.choice([["from"], ["from_owned", "from_ref"]])
+    pc.a_nv = r.randint(0, 2)
+    pc.base = g.mark() * 10
+    pc.ida, pc.upd_id = g.mark(), g.mark()
+    pc.b_names = []
+    todo = set(KINDS)
+    shorts = list(TRAIT_SHORT.items())
+    r.shuffle(shorts)
+    for sh, ks in shorts:
+        one_way = all(k.startswith("from") for k in ks) or all(not k.startswith("from") for k in ks)
+        if set(ks) <= todo and one_way and g.chance(0.5):
+            pc.b_names.append(sh)
+            todo -= set(ks)
+    pc.b_names += sorted(todo)
+    r.shuffle(pc.b_names)
+    pc.b_ids = {nm: g.mark() for nm in pc.b_names}
+    pc.instrs = []
+    return pc
+
+
+def render_hinted(pc, g, fallible):
+    err = "super::Er" if fallible else None
+    fn = (lambda n: FALLIBLE_NAME[n]) if fallible else (lambda n: n)
+    d = dict(nvars=pc.a_nv, base=pc.base)
+    vs = []
+    for j in range(pc.a_nv):
+        vs.append((f"v{j + 1}", f"crate::rt::probe({pc.base + j}, @.0)" if j == 0 else f"crate::rt::probe({pc.base + j}, v1.wrapping_mul(3))"))
+    V = last_var(d)
+    sa = Item("struct", "SA", shape="named", vis="pub ")
+    for nm in pc.a_from:
+        ps = ([("vars", vs)] if vs else []) + [("update", f"upd_sa(crate::rt::probe({pc.upd_id}, {V}))")]
+        sa.attrs.append(Instr(fn(nm), "trait", ty=pc.a_ty.split(" as ")[0], hint="()" if " as " in pc.a_ty else None, err=err, params=ps))
+    sa.fields = [Field("a", "i32", [Instr("from", "map", container=None, member=0, action=f"crate::rt::probe({pc.ida}, ~)", braced=False)]),
+                 Field("b", "i32", [Instr("from", "map", container=None, member=1, action=None)]),
+                 Field("c", "i32", [Instr("ghost", "ghost", container=None, action=None)])]
+    sb = Item("struct", "SB", shape="tuple", vis="pub ")
+    expect = {}
+    refs = []
+    wrap = (lambda e: f"Ok::<_, super::Er>({e})") if fallible else (lambda e: e)
+    for nm in pc.b_names:
+        ks = kinds_of(nm)
+        is_from = all(k.startswith("from") for k in ks)
+        rid = pc.b_ids[nm]
+        if is_from:
+            e = f"SB(crate::rt::probe({rid}, @.x), {rid % 50})"
+        else:
+            e = f"TB {{ x: crate::rt::probe({rid}, @.0), y: {rid % 50} }}"
+        if fallible and not all("existing" in k for k in ks):
+            e = f"Ok({e})"
+        sb.attrs.append(Instr(fn(nm), "trait", ty="TB", hint="{}", err=err, params=[("return", e)]))
+        for k in ks:
+            expect["B:" + k] = [rid]
+            if is_from:
+                refs.append(f"fn refb_{k}(t: &TB) -> {'Result<SB, super::Er>' if fallible else 'SB'} {{ {wrap(f'SB(t.x, {rid % 50})')} }}")
+            else:
+                refs.append(f"fn refb_{k}(s: &SB) -> {'Result<TB, super::Er>' if fallible else 'TB'} {{ {wrap(f'TB {{ x: s.0, y: {rid % 50} }}')} }}")
+    sb.fields = [Field(None, "i32"), Field(None, "i32")]
+    da = sa.render(derive="#[derive(Clone, Debug, PartialEq, o2o::o2o)]")
+    db = sb.render(derive="#[derive(Clone, Debug, PartialEq, o2o::o2o)]")
+    L = ["use super::*;", "use o2o::traits::*;", "#[derive(Clone, Debug, PartialEq)]\npub struct TA(pub i32, pub i32);", "#[derive(Clone, Debug, PartialEq)]\npub struct TB { pub x: i32, pub y: i32 }",
+         "pub fn upd_sa(v: i32) -> SA { SA { a: v.wrapping_add(1100), b: v.wrapping_add(2200), c: v.wrapping_add(3300) } }", da, db] + refs
+    pre_a = ref_vars(d, "t0")
+    body_a = f"SA {{ a: t0, b: t1, c: upd_sa({V}).c }}"
+    L.append(f"fn refa(t0: i32, t1: i32) -> {'Result<SA, super::Er>' if fallible else 'SA'} {{ {pre_a} {wrap(body_a)} }}")
+    vids = [pc.base + j for j in range(pc.a_nv)]
+    expect["A:from_owned"] = expect["A:from_ref"] = vids + [pc.ida, pc.upd_id]
+    pc.expect = pc.__dict__.get("expect", {})
+    pc.expect["f" if fallible else "i"] = expect
+    tag = f"c{pc.cid}{'f' if fallible else 'i'}"
+    pre = "try_" if fallible else ""
+    mk = "TA(t0, t1)" if " as " in pc.a_ty else "(t0, t1)"
+    D = ["pub fn run(log: &mut crate::rt::Log) {", f"    let mut r = crate::rt::Rng::new({pc.cid + 9900});", "    for d in 0..4usize {",
+         "        let (t0, t1) = (r.i32(), r.i32());", f"        let ta = {mk};", "        let tb = TB { x: r.i32(), y: r.i32() };", "        let pre = TB { x: r.i32(), y: r.i32() };", "        let sb = SB(r.i32(), r.i32());"]
+    calls = {
+        "A:from_owned": ("SA::try_from(ta.clone())" if fallible else "SA::from(ta.clone())", "refa(t0, t1)"),
+        "A:from_ref": ("SA::try_from(&ta)" if fallible else "SA::from(&ta)", "refa(t0, t1)"),
+        "B:from_owned": ("SB::try_from(tb.clone())" if fallible else "SB::from(tb.clone())", "refb_from_owned(&tb)"),
+        "B:from_ref": ("SB::try_from(&tb)" if fallible else "SB::from(&tb)", "refb_from_ref(&tb)"),
+        "B:owned_into": ("{ let x: Result<TB, super::Er> = sb.clone().try_into(); x }" if fallible else "{ let x: TB = sb.clone().into(); x }", "refb_owned_into(&sb)"),
+        "B:ref_into": ("{ let x: Result<TB, super::Er> = (&sb).try_into(); x }" if fallible else "{ let x: TB = (&sb).into(); x }", "refb_ref_into(&sb)"),
+        "B:owned_into_existing": ("{ let mut o = pre.clone(); let x = sb.clone().try_into_existing(&mut o); x.map(|_| o) }" if fallible else "{ let mut o = pre.clone(); sb.clone().into_existing(&mut o); o }", "refb_owned_into_existing(&sb)"),
+        "B:ref_into_existing": ("{ let mut o = pre.clone(); let x = (&sb).try_into_existing(&mut o); x.map(|_| o) }" if fallible else "{ let mut o = pre.clone(); (&sb).into_existing(&mut o); o }", "refb_ref_into_existing(&sb)"),
+    }
+    for k, (call, want) in calls.items():
+        if k in expect:
+            D.append(f'        {{ let want = format!("{{:?}}", {want}); crate::rt::probes_take(); let got = crate::rt::guard(|| {call}); log.ev("{tag}", "{pre}{k}", d, "", &got, &want); }}')
+    D += ["    }", "}"]
+    return "\n".join(L + D) + "\n", da + "\n" + db
+
+
 def render_case(pc, g):
-    rm = render_struct if pc.kind == "struct" else render_enum
+    rm = render_struct if pc.kind == "struct" else render_hinted if pc.kind == "hinted" else render_enum
     ci, di = rm(pc, g, False)
     cf, df = rm(pc, g, True)
     code = PRELUDE + "pub mod inf {\n" + ci + "}\npub mod fal {\n" + cf + "}\npub fn run(log: &mut crate::rt::Log) { inf::run(log); fal::run(log); }\n"
